@@ -591,6 +591,7 @@ class CExec:
         if o.length is None:
             raise OutOfSubset("access to object %s of unknown extent" % p.obj)
         self.oblige(st, "ub", "oob_write." + p.obj, z3.And(p.off >= 0, p.off < o.length), node)
+        self.__dict__.setdefault("written", set()).add(p.obj)
         if isinstance(v, Ptr):
             if getattr(o, "target", None) and v.obj == o.target:
                 st.mem[p.obj] = z3.Store(st.mem[p.obj], p.off, v.off)
@@ -994,6 +995,7 @@ class CExec:
                 self.oblige(st, "ub", "memcpy.no_overlap", z3.Or(n_ == 0, d.off + n_ <= s_.off, s_.off + n_ <= d.off), n)
             self.assumptions.add("memcpy(d, s, n) copies n elements (C11 7.24.2.1); modelled on element offsets of byte arrays")
             i = z3.Int("i!memcpy")
+            self.__dict__.setdefault("written", set()).add(d.obj)
             src_arr, dst_arr = st.mem[s_.obj], st.mem[d.obj]
             st.mem[d.obj] = z3.Lambda([i], z3.If(z3.And(i >= d.off, i < d.off + n_),
                                                  z3.Select(src_arr, i - d.off + s_.off), z3.Select(dst_arr, i)))
@@ -1336,10 +1338,26 @@ class CExec:
         return [o for o in res if o[0] != "normal"] + [("normal", s, None) for s in normals]
 
     # loops ---------------------------------------------------------------------------------
+    def loop_index(self, n):
+        """ordinal of loop statement n in source order within the function under execution (stable across paths)"""
+        key = id(self.func)
+        cache = self.__dict__.setdefault("_loop_idx", {})
+        if key not in cache:
+            idx = {}
+
+            def walk(x):
+                if isinstance(x, dict):
+                    if x.get("kind") in ("WhileStmt", "DoStmt", "ForStmt"):
+                        idx[id(x)] = len(idx)
+                    for c in x.get("inner", []) or []:
+                        walk(c)
+            walk(self.func)
+            cache[key] = idx
+        return cache[key][id(n)]
+
     def exec_loop(self, st, n):
         k = n["kind"]
-        ordinal = self.loop_ordinal
-        self.loop_ordinal += 1
+        ordinal = self.loop_index(n)
         inner = n["inner"]
         if k == "WhileStmt":
             init, cond, inc, body = None, inner[0], None, inner[1]
@@ -1391,6 +1409,31 @@ class CExec:
                         s2 = o[1]
                         if inc is not None:
                             self.ev(s2, inc)
+                        cut = self.opt.get("unroll_cut", {}).get(self.loop_index(n))
+                        if cut is not None:
+                            # ghost assertions after iteration `it` (contract-supplied lemmas about the state): each is
+                            # an obligation first and an assumption for what follows - never assumed without proof
+                            facts = cut(self, s2, it)
+                            tmp = s2.copy()
+                            for label, f in facts:
+                                # 'lemma.*' facts are closed arithmetic lemmas: proved valid without any context;
+                                # the others are proved in the current state plus the facts before them
+                                self.oblige(State() if label.startswith("lemma.") else tmp, "inv",
+                                            "cut.iteration%d.%s" % (it, label), f, n)
+                                tmp.path.append(f)
+                            # variables the contract asks to abstract: from here on only the proven facts are known about
+                            # them (sound: information is dropped), which keeps nested terms from piling up
+                            subst = []
+                            for nm in getattr(cut, "abstracts", ()):
+                                for rid, vn in s2.names.items():
+                                    v = s2.vars.get(rid)
+                                    if vn == nm and isinstance(v, CV) and v.ty.is_int() and not z3.is_int_value(v.t) and not z3.is_const(v.t):
+                                        t = self.fresh(nm + "@it%d" % it)
+                                        subst.append((v.t, t))
+                                        s2.vars[rid] = CV(v.ty, t)
+                                        s2.path.append(z3.And(t >= v.ty.min, t <= v.ty.max))
+                            for label, f in facts:
+                                s2.path.append(z3.substitute(f, *subst) if subst else f)
                         nxt.append(s2)
                     elif o[0] == "break":
                         outs.append(("normal", o[1], None))
@@ -1409,6 +1452,11 @@ class CExec:
             self.oblige(st, "inv", "entry.%s" % label, f, n)
         # havoc everything the loop may assign
         mod_vars, mod_objs = self.assigned(n)
+        if getattr(inv, "modifies_objs", None) is not None:
+            # frame stated by the contract: object-name prefixes the loop may write.  Checked, not trusted: every
+            # store in the body goes through store()/stubs, which record the object in self.written
+            mod_objs = tuple(inv.modifies_objs)
+            self.written = set()
         h = st.copy()
         for rid in mod_vars:
             old = h.vars.get(rid)
@@ -1441,7 +1489,12 @@ class CExec:
         else:
             sb = h.copy()
         measure0 = inv.decreases(self, sb) if getattr(inv, "decreases", None) else None
-        for o in self.exec_stmt(sb, body):
+        body_outs = self.exec_stmt(sb, body)
+        if getattr(inv, "modifies_objs", None) is not None:
+            for w in self.written:
+                if isinstance(w, str) and not any(w.startswith(m) for m in mod_objs):
+                    raise StaleContract("loop #%d writes %s, which is outside the frame stated by its invariant" % (ordinal, w))
+        for o in body_outs:
             if o[0] in ("normal", "continue"):
                 s2 = o[1]
                 if inc is not None:
@@ -1456,6 +1509,13 @@ class CExec:
             else:
                 outs.append(o)
         return outs
+
+    def local(self, st, name):
+        """value of the local variable / parameter `name` in state st (for invariants)"""
+        for rid, nm in st.names.items():
+            if nm == name and rid in st.vars:
+                return st.vars[rid]
+        raise StaleContract("no variable named %s" % name)
 
     def assigned(self, n):
         vars_, objs = set(), set()
